@@ -43,6 +43,43 @@ type ResSpec struct {
 	W       int        `json:"w,omitempty"`
 	N       int64      `json:"n,omitempty"`
 	Str     string     `json:"str,omitempty"`
+	// a BlobReader (kind read) that does not simply deliver Data and then io.EOF:
+	Fail     *ReadFail `json:"fail,omitempty"`      // its Read fails part-way
+	CloseErr *ErrSpec  `json:"close_err,omitempty"` // its Close returns this error
+	Chunk    int       `json:"chunk,omitempty"`     // a Read call delivers at most this many bytes (0 = all there is)
+}
+
+// ReadFail: the reader delivers Data[:At] and then its Read returns Err instead of io.EOF
+// (a digest-verifying or network-backed reader that finds out late).  Data stays the content
+// the reader promised.
+type ReadFail struct {
+	At   int      `json:"at"`
+	Err  *ErrSpec `json:"err"`
+	Tail bool     `json:"tail,omitempty"` // the error comes with the last bytes (n > 0, err) rather than on the next call
+}
+
+// delivered is what io.Copy reads from the reader before Read reports io.EOF or fails.
+func (r *ResSpec) delivered() []byte {
+	if r.Fail == nil || r.Fail.At >= len(r.Data) {
+		return r.Data
+	}
+	if r.Fail.At < 0 {
+		return nil
+	}
+	return r.Data[:r.Fail.At]
+}
+
+// streamed: the reader differs from the plain one of the model's VRead (see Obs/C06.v, CStream).
+func (r *ResSpec) streamed() bool { return r.Kind == "read" && (r.Fail != nil || r.CloseErr != nil) }
+
+// rstream renders what the reader had promised beyond what it delivered, the error of its
+// Read and the error of its Close (rstream of coq/Model/ServerStream.v).
+func (r *ResSpec) rstream() string {
+	rest, rerr := "[]", "None"
+	if r.Fail != nil {
+		rest, rerr = hx.BB(r.Data[len(r.delivered()):]), "(Some "+r.Fail.Err.coq()+")"
+	}
+	return "(mkrs " + rest + " " + rerr + " " + optErr(r.CloseErr) + ")"
 }
 
 func optErr(e *ErrSpec) string {
@@ -59,7 +96,7 @@ func (r ResSpec) coq() string {
 	case "desc":
 		return "(Ok (VDesc " + r.Desc.coq() + "))"
 	case "read":
-		return "(Ok (VRead " + r.Desc.coq() + " " + hx.BB(r.Data) + "))"
+		return "(Ok (VRead " + r.Desc.coq() + " " + hx.BB(r.delivered()) + "))"
 	case "list":
 		return "(Ok (VList " + hx.Bs(r.Items) + " " + optErr(r.IterErr) + "))"
 	case "descs":
@@ -237,7 +274,18 @@ func (s *source) next(typ string, digestHint string) ResSpec {
 			size = int64(s.rnd.Intn(4)) // or something else
 		}
 		d := s.genDesc(digestHint, size)
-		return ResSpec{Kind: "read", Desc: &d, Data: data}
+		r := ResSpec{Kind: "read", Desc: &d, Data: data}
+		// (drawn last, so that the content and the descriptor are those of the same seed without it)
+		if s.rnd.Intn(4) == 0 {
+			r.Fail = &ReadFail{At: failPoint(s.rnd, len(data)), Err: randErr(s.rnd, s.rnd.Intn(2), false), Tail: s.rnd.Intn(3) == 0}
+		}
+		if s.rnd.Intn(8) == 0 {
+			r.CloseErr = randErr(s.rnd, s.rnd.Intn(2), false)
+		}
+		if s.rnd.Intn(3) == 0 {
+			r.Chunk = 1 + s.rnd.Intn(7)
+		}
+		return r
 	case "list", "descs":
 		n := s.rnd.Intn(7)
 		if s.rnd.Intn(8) == 0 {
@@ -298,17 +346,61 @@ func (b *backend) call(op string, typ string, strs []string, ints []int64, desc 
 	return r
 }
 
-type reader struct {
-	b    *backend
-	desc ociregistry.Descriptor
-	r    *bytes.Reader
+// failPoint: after how many of n bytes the Read fails: at once, after one byte, in the middle,
+// one byte short, or after everything (an error in place of io.EOF).
+func failPoint(rnd *rand.Rand, n int) int {
+	switch rnd.Intn(6) {
+	case 0:
+		return 0
+	case 1:
+		return min(1, n)
+	case 2:
+		return max(n-1, 0)
+	case 3:
+		return n
+	}
+	return rnd.Intn(n + 1)
 }
 
-func (r *reader) Read(p []byte) (int, error)          { return r.r.Read(p) }
+// reader is the BlobReader the recording backend hands out.  It has no WriteTo: io.Copy
+// goes through Read.
+type reader struct {
+	b        *backend
+	desc     ociregistry.Descriptor
+	data     []byte // what it delivers
+	off      int
+	fail     error // what Read returns once data is exhausted (nil: io.EOF)
+	tail     bool
+	chunk    int
+	closeErr error
+}
+
+func (r *reader) Read(p []byte) (int, error) {
+	if len(p) == 0 {
+		return 0, nil
+	}
+	rest := r.data[r.off:]
+	if len(rest) == 0 {
+		if r.fail != nil {
+			return 0, r.fail
+		}
+		return 0, io.EOF
+	}
+	n := min(len(rest), len(p))
+	if r.chunk > 0 {
+		n = min(n, r.chunk)
+	}
+	copy(p, rest[:n])
+	r.off += n
+	if r.off == len(r.data) && r.fail != nil && r.tail {
+		return n, r.fail
+	}
+	return n, nil
+}
 func (r *reader) Descriptor() ociregistry.Descriptor { return r.desc }
 func (r *reader) Close() error {
 	r.b.log = append(r.b.log, Event{Kind: "closeR"})
-	return nil
+	return r.closeErr
 }
 
 func (b *backend) read(op string, strs []string, ints []int64, hint string) (ociregistry.BlobReader, error) {
@@ -316,7 +408,14 @@ func (b *backend) read(op string, strs []string, ints []int64, hint string) (oci
 	if r.Kind == "err" {
 		return nil, r.Err.build()
 	}
-	return &reader{b: b, desc: r.Desc.desc(), r: bytes.NewReader(r.Data)}, nil
+	rd := &reader{b: b, desc: r.Desc.desc(), data: r.delivered(), chunk: r.Chunk}
+	if r.Fail != nil {
+		rd.fail, rd.tail = r.Fail.Err.build(), r.Fail.Tail
+	}
+	if r.CloseErr != nil {
+		rd.closeErr = r.CloseErr.build()
+	}
+	return rd, nil
 }
 
 func (b *backend) descRes(op string, strs []string, desc *DescSpec, data []byte, w int, hint string) (ociregistry.Descriptor, error) {
